@@ -376,6 +376,10 @@ M("C02", "fchk-gradient-flattened-in-fortran-order", F + "fchk.py", r"data\.atgr
 M("C02", "fchk-hessian-strict-lower-triangle", F + "fchk.py", r"data\.athessian\[np\.tril_indices\(data\.athessian\.shape\[0\]\)\]", "data.athessian[np.tril_indices(data.athessian.shape[0], -1)]", "C02-R21")
 M("C02", "fchk-triangle-reader-without-mirror", F + "fchk.py", r"        result\[: irow \+ 1, irow\] = triangle\[begin:end\]\n", "", "C02-R21")
 
+M("C03", "cube-reader-pops-from-the-end", F + "cube.py", r"tmp\[counter\] = float\(words\.pop\(0\)\)", "tmp[counter] = float(words.pop())", "C03-R20")
+M("C03", "vasp-grid-loops-interchanged", F + "chgcar.py", r"    for i2 in range\(shape\[2\]\):\n        for i1 in range\(shape\[1\]\):\n            for i0 in range\(shape\[0\]\):", "    for i0 in range(shape[0]):\n        for i1 in range(shape[1]):\n            for i2 in range(shape[2]):", "C03-R20")
+M("C03", "cube-writer-breaks-line-after-seven", F + "cube.py", r"        if counter % 6 == 5:", "        if counter % 7 == 6:", "C03-R20")
+
 # ----------------------------------------------------------------------------- additions (fourth round, batch 6)
 M("C07", "extxyz-title-parsed-after-putback", F + "extxyz.py", r"    atom_columns, title_data = _parse_title\(title_line, lit\)\n    lit\.back\(title_line\)\n    lit\.back\(atom_line\)\n", "    lit.back(title_line)\n    lit.back(atom_line)\n    atom_columns, title_data = _parse_title(title_line, lit)\n", "C07-R8")
 M("C07", "mol2-atom-loop-skips-blank-lines", F + "mol2.py", r"(    for i in range\(natoms\):\n        words = next\(lit\)\.split\(\)\n)", "\\1        if not words:\n            continue\n", "C07-R9")
